@@ -2,7 +2,8 @@ import DclabModel.Lemmas.Copy
 /-!
 # C08 — Compress, repack, condense and tdms2rtdc preserve dataset content
 
-* `copy_rows_identity`, `copy_skips_only_empty`, `copy_chunks_clipped`, `stdGrid_covers`
+* `copy_rows_identity`, `copy_skips_only_empty`, `copy_chunks_clipped`, `stdGrid_covers`,
+  `slab_copy_identity` (`floor_slabs_lose_tail_witness`)
       the layout-aware dataset copy returns the rows of the source for every chunking
       (including chunks larger than the data) and every covering chunk grid;
 * `vlen_to_fixed_preserves_bytes`
@@ -83,6 +84,19 @@ theorem stdGrid_covers (n c : Nat) (hc : 0 < c) : Covers (stdGrid n c) n := by
   · exact Nat.div_mul_le_self i c
   · simp only [Nat.lt_min]
     exact ⟨hlt, hi⟩
+
+/-- a copy in slabs of any length `s > 0` (clipped at the end of the data) returns the rows -/
+theorem slab_copy_identity (rows : List Row) (s : Nat) (hs : 0 < s) :
+    copyChunks (slabGrid rows.length s) rows (blank rows.length) = rows :=
+  copyChunks_covers _ rows (stdGrid_covers rows.length s hs)
+
+/-- `k` slabs of `n / k` rows do not cover the data when `k` does not divide `n`: the trailing
+    `n % k` rows keep the fill value (7 rows, 2 slabs of 3) -/
+theorem floor_slabs_lose_tail_witness :
+    copyChunks (floorSlabs 7 2) [[1], [2], [3], [4], [5], [6], [7]] (blank 7)
+      = [[1], [2], [3], [4], [5], [6], []] ∧
+    copyChunks (slabGrid 7 4) [[1], [2], [3], [4], [5], [6], [7]] (blank 7)
+      = [[1], [2], [3], [4], [5], [6], [7]] := by decide
 
 example : h5dsCopy (stdGrid 3 5) { rows := [[1], [2], [3]], chunks := some 5 }
     = some { rows := [[1], [2], [3]], chunks := some 3, compressed := true } := by decide
